@@ -332,6 +332,29 @@ func concurrentRun(args []string) {
 	r := rand.New(rand.NewSource(seed))
 	col := newCollector("concurrent", "")
 
+	// every call returns: a watchdog ends the run when no job has finished for two minutes (on one processor as on many)
+	var progress int64
+
+	go func() {
+		last, idle := int64(-1), 0
+
+		for {
+			time.Sleep(10 * time.Second)
+
+			now := atomic.LoadInt64(&progress) + atomic.LoadInt64(&col.nCases)
+			if now != last {
+				last, idle = now, 0
+				continue
+			}
+
+			idle++
+			if idle >= 12 {
+				fmt.Fprintf(os.Stderr, "fatal error: shared instances of github.com/trustbloc/sidetree-go/pkg (parser, applier, composer, transformers, document handler, VDR): no call has returned for 120 s with GOMAXPROCS=%d (a call that never returns)\n", runtime.GOMAXPROCS(0))
+				os.Exit(3)
+			}
+		}
+	}()
+
 	conc := newConcretizer(seed)
 	cenv := newComposerEnv(seed)
 	pool := newKeyPool(seed)
@@ -515,6 +538,7 @@ func concurrentRun(args []string) {
 	// ---- sequential reference
 	want := make([]string, len(jobs))
 	for i, j := range jobs {
+		atomic.AddInt64(&progress, 1)
 		want[i] = digestJSON(j.run())
 	}
 
